@@ -76,7 +76,7 @@ def _record(r, wid: int, i: int, big: bool = False) -> Dict[str, Any]:
 def generate(seed: int, tier: str) -> Dict[str, Any]:
     rng = Rng(seed)
     r = rng.stream("gen")
-    target = r.weighted([("writers", 4), ("stager", 3), ("normalise", 1), ("rewrite", 1), ("rotation", 4)])
+    target = r.weighted([("writers", 4), ("stager", 3), ("normalise", 1), ("rewrite", 1), ("rotation", 4), ("capture", 2)])
     p: Dict[str, Any] = {"target": target, "sched_seed": int(r.u64() % (1 << 30))}
     if target == "writers":
         ws = []
@@ -95,6 +95,26 @@ def generate(seed: int, tier: str) -> Dict[str, Any]:
             recs.sort(key=lambda x: (x["turn"], x["slice"], IOL.STAGE_ORD.get(x["file"], 99)))
         p["records"] = recs
         p["limits"] = [1, r.choice([40, 80, 150, 400]), 32 * 1024 * 1024]
+    elif target == "capture":
+        # one writer under nested log captures (a driver that buffers its own records runs a compute phase that buffers too):
+        # begin / end of a capture, the end either flushing what it holds or dropping it, and writes in between
+        ops, depth, n = [], 0, 0
+        for _ in range(r.randint(4, 14)):
+            x = r.random()
+            if x < 0.2 and depth < 3:
+                ops.append({"op": "begin"})
+                depth += 1
+            elif x < 0.4 and depth > 0:
+                ops.append({"op": "end", "flush": r.chance(0.8)})
+                depth -= 1
+            else:
+                ops.append({"op": "write", "file": r.choice(["t1.jsonl", "t1.jsonl", "scheduler.jsonl", "custom.jsonl"]), "payload": _record(r, 0, n)})
+                n += 1
+        while depth > 0:
+            ops.append({"op": "end", "flush": True})
+            depth -= 1
+        p["ops"] = ops
+        p["ci"] = r.chance(0.5)
     elif target in ("normalise", "rewrite"):
         p["records"] = [{"file": r.choice(STREAMS), "payload": _record(r, 0, i)} for i in range(r.randint(1, 8))]
         p["ci"] = r.chance(0.8)
@@ -447,6 +467,64 @@ def _rotation(p: Dict[str, Any], stats: Dict[str, int]) -> List[Dict[str, Any]]:
     return viol
 
 
+def _capture(p: Dict[str, Any], stats: Dict[str, int]) -> List[Dict[str, Any]]:
+    """Nested log captures around one writer: what reaches the disk is what a small stack model says, in the writer's order."""
+    import clematis.engine.orchestrator.logging as olog
+    import clematis.engine.util.logmux as lmux
+    from clematis.io.log import append_jsonl
+    viol: List[Dict[str, Any]] = []
+    with Scratch("logs") as root, _Env(root, p.get("ci", True)):
+        stack: List[Any] = []            # engine side: (mux, token)
+        model: List[List[Any]] = []      # model side: buffers of (file, i)
+        disk: Dict[str, List[int]] = {}
+
+        def model_write(f, i):
+            if model:
+                model[-1].append((f, i))
+            else:
+                disk.setdefault(f, []).append(i)
+
+        try:
+            for op in p["ops"]:
+                if op["op"] == "begin":
+                    stack.append(olog._begin_log_capture())
+                    model.append([])
+                    stats["captures"] = stats.get("captures", 0) + 1
+                    stats["max_depth"] = max(stats.get("max_depth", 0), len(stack))
+                elif op["op"] == "end":
+                    mux, token = stack.pop()
+                    pairs = mux.dump()
+                    olog._end_log_capture(token)
+                    held = model.pop()
+                    if op.get("flush", True):
+                        lmux.flush(pairs)           # through the real writer: into the enclosing capture, or to the disk
+                        for f, i in held:
+                            model_write(f, i)
+                else:
+                    append_jsonl(op["file"], dict(op["payload"]))
+                    model_write(op["file"], int(op["payload"]["i"]))
+        finally:
+            while stack:
+                olog._end_log_capture(stack.pop()[1])
+        got: Dict[str, List[int]] = {}
+        for name, body in E.read_dir(os.path.join(root, "logs")).items():
+            lines = body.decode("utf-8").split("\n")
+            if lines[-1] != "":
+                viol.append({"cls": "capture", "sig": "capture:unterminated-line", "detail": name})
+            try:
+                got[name] = [int(json.loads(x)["i"]) for x in lines[:-1]]
+            except Exception as e:  # noqa: BLE001
+                viol.append({"cls": "capture", "sig": "capture:unparsable-line", "detail": "%s: %r" % (name, e)})
+        for name in sorted(set(got) | set(disk)):
+            if got.get(name, []) != disk.get(name, []):
+                g, d = got.get(name, []), disk.get(name, [])
+                sig = "capture:lost-or-duplicated" if sorted(g) != sorted(d) else "capture:writer-order-broken"
+                viol.append({"cls": "capture", "sig": sig, "detail": "%s holds records %s, the capture stack says %s; ops %s" % (
+                    name, g, d, [(o["op"], o.get("file"), (o.get("payload") or {}).get("i"), o.get("flush")) for o in p["ops"]])})
+                break
+    return viol
+
+
 def execute(p: Dict[str, Any]) -> Dict[str, Any]:
     stats: Dict[str, int] = {"target_" + p["target"]: 1}
     sched_d = None
@@ -465,6 +543,10 @@ def execute(p: Dict[str, Any]) -> Dict[str, Any]:
     elif t == "rewrite":
         viol = _rewrite(p, stats)
         nontrivial = True
+    elif t == "capture":
+        viol = _capture(p, stats)
+        stats["evaluations"] = len(p["ops"])
+        nontrivial = stats.get("max_depth", 0) >= 1
     else:
         viol = _rotation(p, stats)
         nontrivial = bool(stats.get("rotations"))
